@@ -266,8 +266,11 @@ class Vector(Base):
     def dot(self, other):
         out = np.zeros(self.shape)
         for c1, c2 in zip(self._xyz.values(), other._xyz.values()):
-            out += (c1 * c2).values
-        return Array(values=out, unit=self.unit * other.unit)
+            # The product converts `other` to the unit of `self` when it can: take
+            # the unit from the product itself
+            product = c1 * c2
+            out += product.values
+        return Array(values=out, unit=product.unit)
 
     def cross(self, other):
         x = self.y * other.z
